@@ -1,6 +1,12 @@
 package main
 
-import "fmt"
+import (
+	"fmt"
+	"os"
+	"runtime/pprof"
+	"sort"
+	"strings"
+)
 
 func debugWriters(p *Prog, st, f string) {
 	fx := p.Fields()
@@ -15,4 +21,58 @@ func debugErrSites(p *Prog) {
 	for _, e := range errSites(s, reach) {
 		fmt.Printf("%v %s  %s -> %s : %s\n", e.Propagate, instrPos(p, e.Instr), shortFn(e.Caller), shortFn(e.Callee), e.How)
 	}
+}
+
+func domainDebug(p *Prog, keys []string) {
+	if pf := os.Getenv("HV_PROF"); pf != "" {
+		f, _ := os.Create(pf)
+		pprof.StartCPUProfile(f)
+		defer pprof.StopCPUProfile()
+	}
+	as := newAssumptions()
+	if len(keys) == 0 {
+		for k, fi := range p.Funcs {
+			if strings.HasPrefix(k, "hermes.") && fi.Decl != nil && fi.Decl.Body != nil && !strings.HasSuffix(p.Fset.Position(fi.Decl.Pos()).Filename, "_test.go") {
+				keys = append(keys, k)
+			}
+		}
+		sort.Strings(keys)
+	}
+	res, err := runDomain(p, keys, as)
+	if err != nil {
+		fmt.Println("ERR", err)
+		return
+	}
+	tot, okn := 0, 0
+	for _, k := range keys {
+		w := res.walks[k]
+		n, g := 0, 0
+		for _, o := range w.obs {
+			n++
+			if o.OK {
+				g++
+			}
+		}
+		tot += n
+		okn += g
+		if n == 0 {
+			continue
+		}
+		fmt.Printf("== %s: %d obligations, %d proved\n", k, n, g)
+		for _, o := range w.obs {
+			if !o.OK {
+				env := newSignEnv(w.x, o.Facts, o.Loops, as)
+				fmt.Printf("   UNPROVED %s %s [%s] need %s got %s (%s)\n      unknown: %v\n      if %s\n", p.Pos(o.Pos), o.Kind, clip(o.Operand(), 300), o.Need, o.Got, o.How, env.blockers(o.Op), clip(guardKeys(o.Facts), 300))
+			} else if len(o.Assumed) > 0 {
+				fmt.Printf("   proved   %s %s [%s] assuming %v\n", p.Pos(o.Pos), o.Kind, clip(o.Operand(), 100), o.Assumed)
+			}
+		}
+	}
+	fmt.Printf("TOTAL %d obligations, %d proved\n", tot, okn)
+}
+
+func domainScopeDebug(p *Prog) {
+	keys := domainScope(p, []string{"hermes.HermesSession.Run"}, domainExcluded)
+	fmt.Println(len(keys), "functions")
+	domainDebug(p, keys)
 }
